@@ -96,6 +96,22 @@ def run_case(ck, desc):
         ck.count(f"synthetic_tables.{desc.get('order', 'ascending')}")
         if not all(np.array_equal(a, b) for a, b in zip(snap, (p, mu, z))):
             ck.violation("inputs-unmodified", {}, desc)
+        # the same table as a (1, n) row vector, a (n, 1) column and a batch of three rows: a form that
+        # is accepted must give, row by row (column by column), the 1-D result
+        if len(p) >= 3:
+            for label, arrs, pick in (
+                ("row-vector", tuple(a.reshape(1, -1) for a in (p, mu, z)), lambda o: o[0]),
+                ("batch-of-rows", tuple(np.vstack([a, a, a]) for a in (p, mu, z)), lambda o: o[2]),
+            ):
+                try:
+                    o2 = np.asarray(fluids.pseudopressure(*arrs), dtype=float)
+                    got_row = pick(o2)
+                except Exception as e:  # noqa: BLE001
+                    ck.count(f"shape_form_not_accepted.{label}.{type(e).__name__}")
+                    continue
+                ck.count(f"shape_form_accepted.{label}")
+                if o2.shape != arrs[0].shape or float(np.max(np.abs(got_row - out))) > 1e-13 * max(abs(out[-1]), 1e-300):
+                    ck.violation("standalone=harness-trapezoid", {"form": label, "shape": list(o2.shape), "max_abs": float(np.max(np.abs(np.asarray(got_row).reshape(-1)[: len(out)] - out))) if np.size(got_row) >= len(out) else None}, desc)
         ck.count("synthetic_tables")
         return len(p) >= 2, {"rows": len(p), "m_last": out[-1]}
 
